@@ -139,7 +139,17 @@ pub fn eval_constant(egraph: &EGraph, enode: &Expr) -> ConstValue {
     } else if let Some((op, a, b)) = enode.binary_op() {
         let (a, b) = (x(a)?, x(b)?);
         if a.is_null() || b.is_null() {
-            return Some(DataValue::Null);
+            // three-valued logic: FALSE AND NULL is FALSE, TRUE OR NULL is TRUE
+            use crate::parser::BinaryOperator::{And, Or};
+            return Some(match (&op, a, b) {
+                (And, DataValue::Bool(false), _) | (And, _, DataValue::Bool(false)) => {
+                    DataValue::Bool(false)
+                }
+                (Or, DataValue::Bool(true), _) | (Or, _, DataValue::Bool(true)) => {
+                    DataValue::Bool(true)
+                }
+                _ => DataValue::Null,
+            });
         }
         let array_a = ArrayImpl::from(a);
         let array_b = ArrayImpl::from(b);
